@@ -435,11 +435,261 @@ example : bpDrained.alive = true ∧ bpDrained.sBuf = [] ∧ bpDrained.aBuf = []
     bpDrained.syncQ = [] ∧ bpDrained.asyncQ = [] ∧ bpDrained.delS = [⟨0, 1, 5⟩, ⟨0, 2, 5⟩] ∧ bpDrained.delA = [⟨1, 1, 5⟩] := by
   decide
 
+/-! ### Sink clones (`NotificationHandle::notification_sink`, `NotificationSink::{send_sync,send_async}_notification`)
+
+A clone is tied to the queues of ONE stream (`g` = its stream number). `Dead g c`: that stream's task has ended
+(`close_connection`: the user is sent `NotificationStreamClosed` and the queue receivers are gone) or a later
+stream has replaced it. -/
+
+def Dead (g : Nat) (c : Chan) : Prop := g < c.gen ∨ (g = c.gen ∧ c.alive = false)
+
+/-- Everything that can happen to the channel: the operations of `Op`, sends through any sink clone, the handle's
+own async send polled once, a new stream. -/
+inductive OpX
+  | op (o : Op) | reopen | ssend (g : Nat) (m : Msg) | sasend (g : Nat) (m : Msg) | hasync (m : Msg)
+
+def applyX (c : Chan) : OpX → Chan
+  | .op o => apply c o
+  | .reopen => reopen c
+  | .ssend g m => (sinkSync c g m).1
+  | .sasend g m => (sinkAsync c g m).1
+  | .hasync m => (asyncOnce c m).1
+
+theorem outLoop_gen (f : Nat) : ∀ (c : Chan) (picks : List Nat), (outLoop c picks f).1.gen = c.gen := by
+  induction f with
+  | zero => intro c picks; rfl
+  | succ n ih =>
+    intro c picks
+    simp only [outLoop]
+    split
+    · rfl
+    · rename_i p c1 picks1 hn
+      have h1 : c1.gen = c.gen := by
+        unfold nextNotif at hn
+        split at hn
+        · cases hn; rfl
+        · split at hn
+          · cases hn
+          · cases hn; rfl
+          · cases hn; rfl
+          · split at hn <;> cases hn <;> rfl
+      have h2 : (pollReady c1).1.gen = c1.gen := by
+        unfold pollReady; split <;> rfl
+      split
+      · split
+        · simp [closeTask, h2, h1]
+        · have := ih (pushOut (pollReady c1).1 p) picks1
+          have h3 : (pushOut (pollReady c1).1 p).gen = (pollReady c1).1.gen := by
+            unfold pushOut; split <;> rfl
+          rw [this, h3, h2, h1]
+      · simp [h2, h1]
+
+theorem pollNext_gen (c : Chan) (picks : List Nat) : (pollNext c picks).1.gen = c.gen := by
+  have ho := outLoop_gen (c.syncQ.length + c.asyncQ.length + 1) c picks
+  unfold pollNext
+  split
+  · exact ho
+  · have hf : (flush (outLoop c picks (c.syncQ.length + c.asyncQ.length + 1)).1).gen = c.gen := by
+      simp only [flush, ho]
+    revert hf
+    generalize flush (outLoop c picks (c.syncQ.length + c.asyncQ.length + 1)).1 = d
+    intro hf
+    show (readOne d).1.gen = c.gen
+    unfold readOne
+    split
+    · exact hf
+    · split
+      · exact hf
+      · split <;> exact hf
+
+theorem taskLoop_gen (f : Nat) : ∀ (c : Chan) (picks : List Nat), (taskLoop c picks f).1.gen = c.gen := by
+  induction f with
+  | zero => intro c picks; rfl
+  | succ n ih =>
+    intro c picks
+    have hp := pollNext_gen c picks
+    simp only [taskLoop]
+    split
+    · exact hp
+    · split <;> simp [closeTask, hp]
+    · rw [ih, hp]
+
+theorem remoteRead_gen : ∀ (fr : List (Nat × Nat)) (c : Chan) (n : Nat) (c' : Chan),
+    remoteRead c n fr = some c' → c'.gen = c.gen ∧ c'.alive = c.alive := by
+  intro fr
+  induction fr with
+  | nil =>
+    intro c n c' h
+    simp only [remoteRead] at h
+    split at h
+    · cases h; exact ⟨rfl, rfl⟩
+    · cases h
+  | cons x rest ih =>
+    intro c n c' h
+    obtain ⟨mode, seq⟩ := x
+    simp only [remoteRead] at h
+    split at h
+    · split at h
+      · split at h
+        · have := ih _ _ _ h; exact this
+        · cases h
+      · cases h
+    · split at h
+      · split at h
+        · have := ih _ _ _ h; exact this
+        · cases h
+      · cases h
+
+theorem letIn_gen (f : Nat) : ∀ c : Chan, (letIn c f).1.gen = c.gen ∧ (letIn c f).1.alive = c.alive := by
+  induction f with
+  | zero => intro c; exact ⟨rfl, rfl⟩
+  | succ n ih =>
+    intro c
+    simp only [letIn]
+    split
+    · exact ⟨rfl, rfl⟩
+    · split
+      · exact ih _
+      · exact ⟨rfl, rfl⟩
+
+theorem sinkSync_ga (c : Chan) (g : Nat) (m : Msg) :
+    (sinkSync c g m).1.gen = c.gen ∧ (sinkSync c g m).1.alive = c.alive := by
+  unfold sinkSync; (repeat' split) <;> exact ⟨rfl, rfl⟩
+
+theorem sinkAsync_ga (c : Chan) (g : Nat) (m : Msg) :
+    (sinkAsync c g m).1.gen = c.gen ∧ (sinkAsync c g m).1.alive = c.alive := by
+  unfold sinkAsync; (repeat' split) <;> exact ⟨rfl, rfl⟩
+
+theorem asyncOnce_ga (c : Chan) (m : Msg) :
+    (asyncOnce c m).1.gen = c.gen ∧ (asyncOnce c m).1.alive = c.alive := by
+  unfold asyncOnce; (repeat' split) <;> exact ⟨rfl, rfl⟩
+
+theorem syncSend_ga (c : Chan) (m : Msg) :
+    (syncSend c m).1.gen = c.gen ∧ (syncSend c m).1.alive = c.alive := by
+  unfold syncSend; (repeat' split) <;> exact ⟨rfl, rfl⟩
+
+theorem asyncSend_ga (c : Chan) (m : Msg) :
+    (asyncSend c m).1.gen = c.gen ∧ (asyncSend c m).1.alive = c.alive := by
+  unfold asyncSend; (repeat' split) <;> exact ⟨rfl, rfl⟩
+
+/-- No operation brings a dead stream back: the stream number never decreases and only `reopen` (a NEW number)
+makes a task. -/
+theorem dead_stays (g : Nat) (c : Chan) (x : OpX) (h : Dead g c) : Dead g (applyX c x) := by
+  have key : ∀ c' : Chan, c'.gen = c.gen → (c.alive = false → c'.alive = false) → Dead g c' := by
+    intro c' hg ha
+    rcases h with h | ⟨h1, h2⟩
+    · exact .inl (by omega)
+    · exact .inr ⟨by omega, ha h2⟩
+  have keq : ∀ c' : Chan, c'.gen = c.gen ∧ c'.alive = c.alive → Dead g c' :=
+    fun c' hc => key c' hc.1 (fun ha => by rw [hc.2, ha])
+  cases x with
+  | reopen =>
+    rcases h with h | ⟨h1, _⟩
+    · exact .inl (by simp only [applyX, reopen]; omega)
+    · exact .inl (by simp only [applyX, reopen]; omega)
+  | ssend g' m => exact keq _ (sinkSync_ga c g' m)
+  | sasend g' m => exact keq _ (sinkAsync_ga c g' m)
+  | hasync m => exact keq _ (asyncOnce_ga c m)
+  | op o =>
+    cases o with
+    | sync m => exact keq _ (syncSend_ga c m)
+    | async m => exact keq _ (asyncSend_ga c m)
+    | letIn f =>
+      simp only [applyX, apply]
+      split
+      · exact keq _ (letIn_gen f c)
+      · exact h
+    | poll picks =>
+      apply key
+      · simp only [applyX, apply, taskPoll]
+        split
+        · rfl
+        · split
+          · rfl
+          · exact taskLoop_gen 4096 c picks
+      · intro ha; simp [applyX, apply, taskPoll, ha]
+    | read n fr =>
+      simp only [applyX, apply]
+      cases hr : remoteRead c n fr with
+      | none => simpa using h
+      | some c' => exact keq c' (remoteRead_gen fr c n c' hr)
+    | rsend m => exact key _ rfl id
+    | rclose => exact key _ rfl id
+    | close => exact key _ rfl id
+    | user => exact key _ (by simp [applyX, apply, pollHandle]) (by simp [applyX, apply, pollHandle])
+
+theorem dead_stays_all (g : Nat) (ops : List OpX) : ∀ c : Chan, Dead g c → Dead g (ops.foldl applyX c) := by
+  induction ops with
+  | nil => intro c h; exact h
+  | cons x xs ih => intro c h; exact ih _ (dead_stays g c x h)
+
+theorem dead_sink_fails (c : Chan) (g : Nat) (m : Msg) (h : Dead g c) :
+    sinkSync c g m = (c, .noconn) ∧ sinkAsync c g m = (c, .noconn) := by
+  have : (!c.alive || g != c.gen) = true := by
+    rcases h with h | ⟨_, h⟩
+    · have : g ≠ c.gen := by omega
+      simp [this]
+    · simp [h]
+  simp [sinkSync, sinkAsync, this]
+
+/-- **A `NotificationSink` obtained before the close never delivers after the user was sent
+`NotificationStreamClosed`.** `closeTask` — `close_connection`, the only place that reports `closed` — leaves the
+stream dead (`g ≤ c.gen`: the sink of the current or of an earlier stream). From then on, whatever else happens
+(`ops`: further sends through the handle or through any clone, polls, reads of the remote, the handle polling its
+events or not, a new stream to the same peer), a send through a clone of that sink answers `NoConnection` (sync) /
+`PeerDoesntExist` (async) and changes nothing — no queue, no ledger of accepted notifications — hence nothing of
+it can ever be delivered. -/
+theorem sink_send_after_close_fails (c : Chan) (g : Nat) (hg : g ≤ c.gen) (ops : List OpX) (m : Msg) :
+    (closeTask c).evQ = c.evQ ++ ["closed"] ∧
+    sinkSync (ops.foldl applyX (closeTask c)) g m = (ops.foldl applyX (closeTask c), .noconn) ∧
+    sinkAsync (ops.foldl applyX (closeTask c)) g m = (ops.foldl applyX (closeTask c), .noconn) := by
+  have hd : Dead g (closeTask c) := by
+    by_cases h : g < c.gen
+    · exact .inl h
+    · exact .inr ⟨by simp [closeTask]; omega, rfl⟩
+  exact ⟨rfl, dead_sink_fails _ g m (dead_stays_all g ops _ hd)⟩
+
+/-- While the stream lives a clone behaves like the sink in the handle, minus the handle's bookkeeping: full sync
+queue ⇒ `ChannelClogged` and nothing else (no `ForceClose`, no `clogged` mark); the handle's async send polled once
+and dropped leaves no trace when it would have had to wait. -/
+theorem sink_clone_live (c : Chan) (m : Msg) (ha : c.alive = true) :
+    (c.syncQ.length ≥ c.cfg.syncCap → sinkSync c c.gen m = (c, .clogged)) ∧
+    (c.syncQ.length < c.cfg.syncCap →
+      sinkSync c c.gen m = ({ c with syncQ := c.syncQ ++ [m], accS := c.accS ++ [m] }, .ok)) ∧
+    ((asyncOnce c m).2 = .blocked → (asyncOnce c m).1 = c) := by
+  refine ⟨fun h => ?_, fun h => ?_, fun h => ?_⟩
+  · simp [sinkSync, ha, h]
+  · have : ¬ c.syncQ.length ≥ c.cfg.syncCap := by omega
+    simp [sinkSync, ha, this]
+  · unfold asyncOnce at h ⊢
+    split at h
+    · cases h
+    · split at h
+      · cases h
+      · split at h
+        · cases h
+        · rename_i h1 h2 h3
+          simp [h1, h2, h3]
+
+-- non-vacuity: a sink taken from the open stream (number 1) works; after the task has closed it answers
+-- NoConnection, also when a new stream (number 2) is open and the handle's own sink works again
+def sinkDemo : Chan := [OpX.op .user, .ssend 1 ⟨0, 1, 5⟩, .op .close, .op (.poll [])].foldl applyX (reopen { cfg := demoCfg })
+example : getSink ((pollHandle (reopen { cfg := demoCfg })).1) = some 1 ∧ sinkDemo.accS = [⟨0, 1, 5⟩] ∧
+    Dead 1 sinkDemo ∧ (sinkSync sinkDemo 1 ⟨0, 2, 5⟩).2 = .noconn ∧
+    (sinkSync ([OpX.reopen, .op .user].foldl applyX sinkDemo) 1 ⟨0, 2, 5⟩).2 = .noconn ∧
+    (sinkSync ([OpX.reopen, .op .user].foldl applyX sinkDemo) 2 ⟨0, 2, 5⟩).2 = .ok ∧
+    (syncSend ([OpX.reopen, .op .user].foldl applyX sinkDemo) ⟨0, 2, 5⟩).2.1 = .ok := by
+  refine ⟨by decide, by decide, .inr ⟨by decide, by decide⟩, by decide, by decide, by decide, by decide⟩
+example : (asyncOnce { cfg := demoCfg, viewHas := true, alive := true, asyncQ := [⟨1, 1, 5⟩] } ⟨1, 2, 5⟩).2 = .blocked := by decide
+
 #print axioms per_mode_prefix
 #print axioms at_most_once
 #print axioms no_gap_within_open_period
 #print axioms no_loss_while_open
 #print axioms sync_never_blocks
 #print axioms oversize_not_delivered
+
+#print axioms sink_send_after_close_fails
+#print axioms sink_clone_live
 
 end Litep2pVerif.Chan
